@@ -17,6 +17,7 @@ THEOREMS = [
     "CM.Args.C16_replaceArgs_length",
     "CM.Args.C16_addArg",
     "CM.Args.C16_callTarget_args",
+    "CM.Args.C16_callTarget_args_plain",
     "CM.Args.C01_replaceArgs_wf",
     "CM.Args.C07_replaceArgs_idem_single",
     "CM.Args.parenGens_others",
@@ -87,6 +88,11 @@ def corr(ctx):
             keep = lambda l: [a for a in l if a["kw"] is None or a["kw"] not in ns]
             if keep(im["args"]) != keep(rq["args"]):
                 ctx.fail({"kind": "replace-args-touches-others"}, f"replace_args altered an argument the specification does not name: {im['src']} -> {im['rendered']}", {"request": rq, "impl": im})
+        elif rq["op"] == "call_target":
+            # the callee is swapped: every argument of the original call is still there, in order (after the old callee when it is passed along)
+            base = rq["replacement"] if rq["replacement"] else rq["args"]
+            if [unparen(a) for a in im["args"]] != [unparen(a) for a in base]:
+                ctx.fail({"kind": "call-target-touches-arguments"}, f"update_call_target altered the arguments: {im['src']} -> {im['rendered']}", {"request": rq, "impl": im})
         elif [unparen(a) for a in im["args"][: len(rq["args"])]] != [unparen(a) for a in rq["args"]] or len(im["args"]) != len(rq["args"]) + 1:
             ctx.fail({"kind": "add-arg-touches-others"}, f"add_arg_to_call altered existing arguments: {im['src']} -> {im['rendered']}", {"request": rq, "impl": im})
 
